@@ -26,6 +26,10 @@ pub trait Flavor: 'static {
     fn node(f: &Self::Fut) -> NodeSnap;
     fn debug(c: &Self::Chan) -> String;
     fn node_debug(f: &Self::Fut) -> String;
+    /// shared flavour: number of owners (handles, futures) of the shared state
+    fn owners(_c: &Self::Chan) -> Option<usize> {
+        None
+    }
     fn senders(_c: &Self::Chan) -> usize {
         1
     }
@@ -103,13 +107,21 @@ impl<M: RawMutex + std::fmt::Debug + 'static> Flavor for Shared<M> {
         c.rx[0].try_receive(id)
     }
     fn snapshot(c: &Self::Chan) -> Snapshot {
-        c.vref.verif_snapshot(&ctag_of)
+        c.vref.verif_snapshot(&ctag_of).unwrap_or_else(|| {
+            let mut sn = Snapshot::default();
+            sn.scalars = vec![1, 0, NO_VALUE, 0, 0];
+            sn.queues = vec![vec![]];
+            sn
+        })
+    }
+    fn owners(c: &Self::Chan) -> Option<usize> {
+        Some(c.vref.verif_owners())
     }
     fn node(f: &Self::Fut) -> NodeSnap {
         f.verif_node()
     }
     fn debug(c: &Self::Chan) -> String {
-        c.vref.verif_debug()
+        c.vref.verif_debug().unwrap_or_default()
     }
     fn node_debug(f: &Self::Fut) -> String {
         f.verif_node_debug()
@@ -256,7 +268,11 @@ impl<F: Flavor> Sys<F> {
     }
 
     fn invariants(&mut self, out: &mut StepOut) {
-        let (na, nf) = harness::take_alloc_counts();
+        let (na, mut nf) = harness::take_alloc_counts();
+        if F::owners(&self.chan) == Some(0) {
+            // this step dropped the last owner of the shared state: freeing it is destruction
+            nf = 0;
+        }
         if na + nf > 0 {
             out.p("C18", "alloc-in-call", format!("{} allocations / {} frees inside library calls of this step", na, nf));
         }
